@@ -184,18 +184,24 @@ def oracle_file(case):
 def files(draw):
     v12 = draw(st.booleans())
     vers = "1.2" if v12 else "2.0"
-    secs = [lastext.section("V", "~Version", [lastext.item("VERS", "", vers, "v"), lastext.item("WRAP", "", "NO", "w")])]
+    from checks.c05 import TITLES
+
+    def ttl(kind, default):
+        # any documented spelling of the title, lower case included: the line grammar must not depend on it
+        return draw(st.sampled_from(TITLES[kind])) if draw(st.booleans()) else default
+
+    secs = [lastext.section("V", ttl("V", "~Version"), [lastext.item("VERS", "", vers, "v"), lastext.item("WRAP", "", "NO", "w")])]
     well = [lastext.item("STRT", "M", "1", "start"), lastext.item("STOP", "M", "2", "stop"),
             lastext.item("STEP", "M", "1", "step"), lastext.item("NULL", "", "-999.25", "null")]
     well += draw(st.lists(S.item_line(kind="W", v12=v12), max_size=4))
-    secs.append(lastext.section("W", "~Well", well))
+    secs.append(lastext.section("W", ttl("W", "~Well"), well))
     curves = [lastext.item("DEPT", "M", "", "depth")] + draw(st.lists(S.item_line(kind="C", v12=v12), max_size=3))
-    secs.append(lastext.section("C", "~Curves", curves))
-    secs.append(lastext.section("P", "~Params", draw(st.lists(S.item_line(kind="P", v12=v12), max_size=4))))
+    secs.append(lastext.section("C", ttl("C", "~Curves"), curves))
+    secs.append(lastext.section("P", ttl("P", "~Params"), draw(st.lists(S.item_line(kind="P", v12=v12), max_size=4))))
     if draw(st.booleans()):
-        secs.append(lastext.section("X", "~Tops", draw(st.lists(S.item_line(kind="X", v12=v12), max_size=3))))
+        secs.append(lastext.section("X", ttl("X", "~Tops"), draw(st.lists(S.item_line(kind="X", v12=v12), max_size=3))))
     n = len(curves)
-    secs.append(lastext.section("A", "~A", [lastext.row([str(i + j) for j in range(n)]) for i in range(2)], ncols=n))
+    secs.append(lastext.section("A", ttl("A", "~A"), [lastext.row([str(i + j) for j in range(n)]) for i in range(2)], ncols=n))
     spec = {"nl": "\n", "final_nl": True, "sections": secs}
     return {"spec": spec, "mnemonic_case": draw(st.sampled_from(["preserve", "upper", "lower"]))}
 
@@ -207,5 +213,5 @@ def parts(tier):
         Hyp("numeric-unit-lines", numeric_unit_lines, quick=3000, thorough=60000),
         Hyp("leading-dot-unit-lines", leading_dot_unit_lines, quick=3000, thorough=60000),
         Enum("clock-times-24x60", clock_cases),
-        Hyp("lines-in-files", files, quick=1500, thorough=40000),
+        Hyp("lines-in-files", files, quick=3000, thorough=40000),
     ]
